@@ -85,6 +85,7 @@ pub fn world_stats(w: &World) -> BTreeMap<String, u64> {
         ("udp_reordered", s.udp_reordered),
         ("udp_no_socket", s.udp_no_socket),
         ("udp_oversize", s.udp_oversize),
+        ("udp_wrong_family", s.udp_wrong_family),
         ("udp_partitioned", s.udp_partitioned),
     ] {
         m.insert(k.to_owned(), v);
